@@ -85,7 +85,7 @@ def info_iterators_probe(ctx, FORB):
     nums = sorted(set(FORB)) + [-1, -7, 128, 200, 100000, 0, 32, 65, 127]
     rc, out, _ = sh([common.bin_path('p_c14x')] + [str(n) for n in nums], timeout=300)
     rows = [l.split() for l in out.split('\n') if l.startswith('X ')]
-    ctx.correspondence('info-carrying iterator entry points probe ran (p_c14x)', rc == 0 and len(rows) == 4 * len(nums), out[-400:] if rc else None)
+    ctx.correspondence('info-carrying iterator entry points probe ran (p_c14x)', rc == 0 and len(rows) == 7 * len(nums), out[-400:] if rc else None)
     for r in rows:
         if len(r) != 7:
             continue
@@ -94,11 +94,13 @@ def info_iterators_probe(ctx, FORB):
         ctx.evaluations += 1
         ctx.distinct.add(('c14x', exf, entry, sig))
         want = 'panic' if (sig in FORB or sig < 0 or sig >= 128) else 'err'
-        name = '%s::%s(%d)' % ({'raw': 'SignalsInfo<WithRawSiginfo>', 'origin': 'SignalsInfo<WithOrigin>'}[exf], {'new': 'new', 'add': 'add_signal'}[entry], sig)
+        name = '%s::%s(%s%d%s)' % ({'raw': 'SignalsInfo<WithRawSiginfo>', 'origin': 'SignalsInfo<WithOrigin>', 'only': 'Signals'}[exf],
+                                   {'new': 'new', 'add': 'add_signal', 'new2': 'new'}[entry], '[SIGUSR1, ' if entry == 'new2' else '', sig, ']' if entry == 'new2' else '')
         if not outcome.startswith(want) or same != '1' or leaked != '0':
             ctx.violation({'entry': exf + '/' + entry, 'sig': sig},
                           '%s: outcome %s (expected a %s), disposition of the signal %s, %s descriptors left open' % (
-                              name, outcome, 'catchable panic' if want == 'panic' else 'returned error', 'unchanged' if same == '1' else 'CHANGED', leaked),
+                              name, outcome, 'catchable panic' if want == 'panic' else 'returned error',
+                              'unchanged' if same == '1' else ('CHANGED' if entry != 'new2' else 'changed or the registration of SIGUSR1 made on the way still there'), leaked),
                           {'probe': 'p_c14x', 'row': r, 'replay': 'harness/target/debug/p_c14x %d' % sig})
         else:
             ctx.traces += 1
